@@ -172,6 +172,20 @@ CLAIMED.update({
              "opened (only ::1 exists in the sandbox); IPv6 is covered by the containment table."),
 })
 
+CLAIMED.update({
+    "C03": dict(
+        category="exploration", design_ref="DESIGN.md 5 (C03)",
+        technique="TLA+ Framing.tla (stream-decoder contract under arbitrary fragmentation; invariants FragmentationIndependent, "
+                  "NoCompleteFrameLeft, Progress checked exhaustively by TLC) with every model transition replayed with concrete bytes "
+                  "on PeerCodec::try_parse and RtrCodec::decode; the per-call contract is then checked on a structured corruption sweep "
+                  "of real messages of every family and codec variant under catch_unwind in debug and release arithmetic",
+        text="Stream part: exhaustive for the model (all frame-class sequences of up to 3 frames, all fragmentations) on three decoder "
+             "instances. Sweep part: bounded - one- and sampled two-site boundary substitutions and every truncation of valid messages "
+             "(375k decoder runs quick, ~10M thorough in both arithmetic profiles); arbitrary byte strings are not enumerated.",
+        note="Trusted: the harness's own contract checker and the sample messages (self-tested by round trip). The per-family NLRI "
+             "decoders are exercised only through corruptions of the sample NLRI values."),
+})
+
 NOT_YET = {}
 
 HOOK_COMMITS = []
